@@ -111,5 +111,141 @@ def transpose (M : Csc α) : Csc α :=
       ((M.col j).filter (fun e => e.1 == i)).map (fun e => (j, e.2)))).flatten)
   ofCols M.n M.m cols
 
+
+/-! ### Further operations of `core.rs` (added after the exemplar)
+
+Domain of the definitions below (and of `toTriu/selectRows/transpose` above): encodings
+that pass `check_dimensions` and have `colptr[0] = 0` ("well-dimensioned").  Columns may
+be unsorted / contain duplicates / out-of-range rows unless stated otherwise.  The
+correspondence generators stay inside this domain (malformed encodings are only sent to
+`check_format` and `canonicalize`). -/
+
+/-- all columns as entry lists -/
+def cols (M : Csc α) : List (List (Nat × α)) := (List.range M.n).map M.col
+
+/-- `CscMatrix::from(rows)`; `assert!(rows.iter().all(|r| r.len() == n))` -/
+def fromRows [BEq α] [OfNat α 0] (rows : Array (Array α)) : MErr (Csc α) :=
+  let m := rows.size
+  let n := match rows[0]? with
+    | some r => r.size
+    | none => 0
+  if !(rows.toList.all (fun r => r.size == n)) then throw (.panic "from: ragged rows") else
+  let cols : List (List (Nat × α)) := (List.range n).map (fun c =>
+    rows.toList.zipIdx.filterMap (fun (p : Array α × Nat) =>
+      match (p.1[c]? : Option α) with
+      | some v => if v != (0 : α) then some (p.2, v) else none
+      | none => none))
+  pure (ofCols m n cols)
+
+/-- stable insertion of `e` into a list sorted by row (before the first entry whose row is
+`≥ e.1`; used from the right, so equal rows keep their original order) -/
+def insertByRow (e : Nat × α) : List (Nat × α) → List (Nat × α)
+  | [] => [e]
+  | x :: xs => if e.1 ≤ x.1 then e :: x :: xs else x :: insertByRow e xs
+
+/-- stable sort by row index (`sort_by_key(|(r,_)| r)` / `sortperm_by` are stable) -/
+def sortByRow (l : List (Nat × α)) : List (Nat × α) := l.foldr insertByRow []
+
+/-- merge runs of equal row indices, adding the values left to right
+(`accum = accum + nzval[ptr]`) -/
+def dedupeGo [Add α] (r : Nat) (acc : α) : List (Nat × α) → List (Nat × α)
+  | [] => [(r, acc)]
+  | e :: rest => if e.1 == r then dedupeGo r (acc + e.2) rest else (r, acc) :: dedupeGo e.1 e.2 rest
+
+def dedupeRows [Add α] : List (Nat × α) → List (Nat × α)
+  | [] => []
+  | e :: rest => dedupeGo e.1 e.2 rest
+
+/-- `new_from_triplets`.  Follows the code: a triplet with `J = n` is counted into the
+spare `colptr[n]` slot and then never read (silently dropped); `J > n` is an index panic;
+row indices are not checked. -/
+def newFromTriplets [Add α] (m n : Nat) (I J : Array Nat) (V : Array α) : MErr (Csc α) :=
+  if I.size != J.size || I.size != V.size then throw (.panic "new_from_triplets: lengths") else
+  if J.toList.any (fun c => decide (c > n)) then throw (.panic "new_from_triplets: colptr[c]") else
+  let trip := I.toList.zip (J.toList.zip V.toList)
+  let cols := (List.range n).map (fun c =>
+    dedupeRows (sortByRow ((trip.filter (fun t => t.2.1 == c)).map (fun t => (t.1, t.2.2)))))
+  pure (ofCols m n cols)
+
+/-- `spalloc` -/
+def spalloc [OfNat α 0] (m n nnz : Nat) : Csc α :=
+  { m := m, n := n, colptr := (Array.replicate n 0).push nnz,
+    rowval := Array.replicate nnz 0, nzval := Array.replicate nnz 0 }
+
+/-- `zeros` -/
+def zeros [OfNat α 0] (m n : Nat) : Csc α := spalloc m n 0
+
+/-- `identity` -/
+def identity [OfNat α 1] (n : Nat) : Csc α :=
+  { m := n, n := n, colptr := (List.range (n + 1)).toArray, rowval := (List.range n).toArray,
+    nzval := Array.replicate n 1 }
+
+/-- `dropzeros` (`val != T::zero()` keeps NaN, drops `-0.0`) -/
+def dropzeros [BEq α] [OfNat α 0] (M : Csc α) : Csc α :=
+  ofCols M.m M.n (M.cols.map (fun c => c.filter (fun e => e.2 != 0)))
+
+/-- `findnz` -/
+def findnz (M : Csc α) : Array Nat × Array Nat × Array α :=
+  let J := ((List.range M.n).map (fun c =>
+    List.replicate (M.colptr.getD (c + 1) 0 - M.colptr.getD c 0) c)).flatten.toArray
+  (M.rowval, J, M.nzval)
+
+/-- `sort_indices` -/
+def sortIndices (M : Csc α) : Csc α := ofCols M.m M.n (M.cols.map sortByRow)
+
+/-- `deduplicate` -/
+def deduplicate [Add α] (M : Csc α) : Csc α := ofCols M.m M.n (M.cols.map dedupeRows)
+
+/-- `canonicalize` -/
+def canonicalize [Add α] (M : Csc α) : Except FormatError (Csc α) :=
+  match M.checkDimensions with
+  | .error e => .error e
+  | .ok () => .ok (M.sortIndices.deduplicate)
+
+/-- `is_equal_sparsity` -/
+def isEqualSparsity (A B : Csc α) : Bool :=
+  A.m == B.m && A.n == B.n && A.colptr == B.colptr && A.rowval == B.rowval
+
+/-- `check_equal_sparsity` -/
+def checkEqualSparsity (A B : Csc α) : Except FormatError Unit :=
+  if !(A.m == B.m && A.n == B.n) then .error .incompatibleDimension
+  else if A.colptr != B.colptr || A.rowval != B.rowval then .error .sparsityMismatch
+  else .ok ()
+
+/-- `get_entry` (binary search; the column must be sorted and duplicate free) -/
+def getEntry (M : Csc α) (row col : Nat) : MErr (Option α) :=
+  if !(decide (row < M.m) && decide (col < M.n)) then throw (.panic "get_entry: bounds") else
+  pure (((M.col col).find? (fun e => e.1 == row)).map (·.2))
+
+/-- `i < len && rows[i] == row` -/
+def rowAt (c : List (Nat × α)) (i row : Nat) : Bool :=
+  match c[i]? with
+  | some e => e.1 == row
+  | none => false
+
+/-- `set_entry`: overwrite an existing structural entry, insert a new one in sorted
+position unless the value is zero ("no new zeros").  The column must be sorted. -/
+def setEntry [BEq α] [OfNat α 0] (M : Csc α) (row col : Nat) (v : α) : MErr (Csc α) :=
+  if !(decide (row < M.m) && decide (col < M.n)) then throw (.panic "set_entry: bounds") else
+  let c := M.col col
+  let i := (c.takeWhile (fun e => decide (e.1 < row))).length
+  let found := rowAt c i row
+  if found then
+    pure (ofCols M.m M.n ((List.range M.n).map (fun j =>
+      if j == col then c.take i ++ (row, v) :: c.drop (i + 1) else M.col j)))
+  else if v == 0 then pure M
+  else
+    pure (ofCols M.m M.n ((List.range M.n).map (fun j =>
+      if j == col then c.take i ++ (row, v) :: c.drop i else M.col j)))
+
+/-- `index_to_coord` -/
+def indexToCoord (M : Csc α) (idx : Nat) : MErr (Nat × Nat) :=
+  if !(decide (idx < M.nnz)) then throw (.panic "index_to_coord: bounds") else
+  match M.rowval[idx]? with
+  | none => throw (.panic "index_to_coord: rowval")
+  | some row =>
+    let pp := (M.colptr.toList.takeWhile (fun c => decide (idx + 1 > c))).length
+    pure (row, pp - 1)
+
 end Csc
 end Clarabel
